@@ -183,6 +183,43 @@ func c13Node(c *core.C) {
 		}
 	}
 	c13Extra(c, base)
+	c13InPlace(c, base)
+}
+
+// c13InPlace: the SAME node value is compared and hashed, changed in place, and compared and hashed again. What
+// the library answers for the changed value must equal what it answers for a fresh copy of it (an answer kept
+// from before the change would differ), and must tell the changed value from the original.
+func c13InPlace(c *core.C, base *sbom.Node) {
+	r := c.R
+	o := c13Pop()
+	live := gen.Clone(base)
+	_ = live.Checksum()
+	_ = live.Equal(base)
+	_ = base.Equal(live)
+	var trace []string
+	for step := 0; step < 5; step++ {
+		mu := c13NodeMuts[r.Intn(len(c13NodeMuts))]
+		if isNanosMut(mu) || !gen.Apply(r, live.ProtoReflect(), mu, step, o) {
+			continue
+		}
+		trace = append(trace, mu.String())
+		fresh := gen.Clone(live)
+		c.Evals(3)
+		c.Cover("node-changed-in-place-between-comparisons")
+		det := map[string]any{"changes_in_place": append([]string{}, trace...)}
+		if live.Checksum() != fresh.Checksum() {
+			c.Violatef("node-checksum-stale-after-change", det, "after changing a node in place (%v) its checksum differs from the checksum of a fresh copy of it", trace)
+			return
+		}
+		if !live.Equal(fresh) || !fresh.Equal(live) {
+			c.Violatef("node-equal-stale-after-change", det, "after changing a node in place (%v) it does not compare equal to a fresh copy of itself", trace)
+			return
+		}
+		if le, bf := live.Equal(base), fresh.Equal(base); le != bf {
+			c.Violatef("node-equal-stale-after-change", det, "after changing a node in place (%v) Equal(changed, original)=%v but Equal(fresh copy of changed, original)=%v", trace, le, bf)
+			return
+		}
+	}
 }
 
 // c13Extra: mutants the generic site enumeration does not produce: enum numbers the schema does not declare,
@@ -425,7 +462,55 @@ func c13List(c *core.C) {
 	}
 	m = gen.Clone(base)
 	m.Nodes[0].Id = "nx"
-	check("node-id", m)
+	if !check("node-id", m) {
+		return
+	}
+	// the same list value compared, changed in place (same number of nodes and edges), compared again
+	live := gen.Clone(base)
+	_, _ = live.Equal(base), base.Equal(live)
+	var trace []string
+	for step := 0; step < 4; step++ {
+		switch r.Intn(4) {
+		case 0:
+			ni := r.Intn(len(live.Nodes))
+			mu := c13NodeMuts[r.Intn(len(c13NodeMuts))]
+			if isNanosMut(mu) || !gen.Apply(r, live.Nodes[ni].ProtoReflect(), mu, step, o) {
+				continue
+			}
+			trace = append(trace, fmt.Sprintf("node %d: %s", ni, mu.String()))
+		case 1:
+			if len(live.Edges) == 0 {
+				continue
+			}
+			e := live.Edges[r.Intn(len(live.Edges))]
+			e.To = append(e.To, "nx")
+			trace = append(trace, "edge target added")
+		case 2:
+			if len(live.Edges) == 0 {
+				continue
+			}
+			live.Edges[r.Intn(len(live.Edges))].Type = sbom.Edge_Type(1 + r.Intn(44))
+			trace = append(trace, "edge type changed")
+		default:
+			if len(live.RootElements) == 0 {
+				continue
+			}
+			live.RootElements[r.Intn(len(live.RootElements))] = gen.Pick(r, ids)
+			trace = append(trace, "root changed")
+		}
+		fresh := gen.Clone(live)
+		c.Evals(2)
+		c.Cover("list-changed-in-place-between-comparisons")
+		det := map[string]any{"base": gen.Canon(base), "changes_in_place": append([]string{}, trace...)}
+		if !live.Equal(fresh) || !fresh.Equal(live) {
+			c.Violatef("list-equal-stale-after-change", det, "after changing a list in place (%v) it does not compare equal to a fresh copy of itself", trace)
+			return
+		}
+		if le, bf := live.Equal(base), fresh.Equal(base); le != bf {
+			c.Violatef("list-equal-stale-after-change", det, "after changing a list in place (%v) Equal(changed, original)=%v but Equal(fresh copy of changed, original)=%v", trace, le, bf)
+			return
+		}
+	}
 }
 
 // c13Random: equivalence laws on arbitrary text; confirmation of the separator-collision known finding.
